@@ -25,6 +25,33 @@ def decode(src, maxout=None):
         for _ in range(ml): out.append(out[-off])
         if maxout is not None and len(out)>maxout: raise ValueError('overflow')
     return bytes(out)
+def decode_prefix(src):
+    # decode as far as the format allows; returns (output so far, True if the whole input was a well-formed block)
+    out=bytearray(); i=0; n=len(src)
+    try:
+        while i<n:
+            tok=src[i]; i+=1; ll=tok>>4
+            if ll==15:
+                while True:
+                    if i>=n: raise ValueError
+                    b=src[i]; i+=1; ll+=b
+                    if b!=255: break
+            if i+ll>n: raise ValueError
+            out+=src[i:i+ll]; i+=ll
+            if i>=n: return bytes(out),True
+            if i+2>n: raise ValueError
+            off=src[i]|(src[i+1]<<8); i+=2; ml=tok&15
+            if ml==15:
+                while True:
+                    if i>=n: raise ValueError
+                    b=src[i]; i+=1; ml+=b
+                    if b!=255: break
+            ml+=4
+            if off==0 or off>len(out): raise ValueError
+            for _ in range(ml): out.append(out[-off])
+        return bytes(out),True
+    except ValueError:
+        return bytes(out),False
 def encode(data, rng=None, greedy=True):
     # valid LZ4 block: last 5 bytes literals, last match starts >=12 bytes before end
     n=len(data); out=bytearray(); i=0; anchor=0; table={}
